@@ -270,6 +270,9 @@ func runC04(c *vx.Ctx) {
 	if c.Wants("inclusion") {
 		c04Inclusion(c)
 	}
+	if c.Wants("routing-forks") {
+		c04Forks(c)
+	}
 }
 
 func replayC04(c *vx.Ctx, v vx.Violation) string {
@@ -284,6 +287,14 @@ func replayC04(c *vx.Ctx, v vx.Violation) string {
 			return "bad replay: " + err.Error()
 		}
 		d, _, _ := c04RunQHist(cs.Start, cs.Hist)
+		return d
+	}
+	if v.Part == "routing-forks" {
+		var cs map[string]string
+		if err := jsonUnmarshal(raw, &cs); err != nil {
+			return "bad replay: " + err.Error()
+		}
+		_, d, _ := c04RunFork(cs["word"])
 		return d
 	}
 	return c04ReplayRoute(c, v, raw)
